@@ -393,6 +393,8 @@ func C09(tier string) int {
 			if err != nil {
 				return nil, err
 			}
+			// Batches arrive the way a client's do: through the gRPC handler (single requests go to the service).
+			w.ViaHandler = true
 			return &c09Worker{w: w}, nil
 		},
 		Ops: func(path []SOp) []SOp {
